@@ -202,6 +202,35 @@ fn gen_history(rng: &mut Rng, interval: u64) -> (Vec<Value>, Vec<Value>) {
     (docs, hist)
 }
 
+fn observe(cx: &mut Ctx, uris: &[String]) -> Vec<Value> {
+    let st = request(cx, "verif/docState", json!({"uris": uris}), Duration::from_secs(30))
+        .and_then(|r| r.result).and_then(|v| v.as_array().cloned()).unwrap_or_default();
+    let f = |v: &Value| match v {
+        Value::String(s) => json!(id_of(s)),
+        _ => Value::Null,
+    };
+    let mut obs = Vec::new();
+    for (i, u) in uris.iter().enumerate() {
+        let p = st.get(i).cloned().unwrap_or(Value::Null);
+        let known = !p["analysed"].is_null();
+        let fresh: Option<Vec<Value>> = if known {
+            request(cx, "textDocument/diagnostic", json!({"textDocument": {"uri": u}}), Duration::from_secs(30))
+                .and_then(|r| r.result).and_then(|v| v["items"].as_array().cloned())
+        } else {
+            None
+        };
+        let publ = cx.published.get(u).cloned();
+        let same = match (&publ, &fresh) {
+            (Some((_, p)), Some(f)) => canon(p) == canon(f),
+            _ => false,
+        };
+        obs.push(json!({"open": f(&p["open"]), "analysed": f(&p["analysed"]),
+            "published": publ.as_ref().map(|x| x.1.len()), "fresh": fresh.as_ref().map(|x| x.len()),
+            "same": same, "npub": publ.as_ref().map(|x| x.0).unwrap_or(0)}));
+    }
+    obs
+}
+
 fn run_history(cx: &mut Ctx, docs: &[Value], hist: &[Value]) -> Vec<Value> {
     let mut uris = Vec::new();
     for d in docs {
@@ -253,30 +282,16 @@ fn run_history(cx: &mut Ctx, docs: &[Value], hist: &[Value]) -> Vec<Value> {
     while cx.last_msg.elapsed() < settle && t0.elapsed() < Duration::from_secs(20) {
         pump(cx, Duration::from_millis(20));
     }
-    let st = request(cx, "verif/docState", json!({"uris": uris}), Duration::from_secs(30))
-        .and_then(|r| r.result).and_then(|v| v.as_array().cloned()).unwrap_or_default();
-    let f = |v: &Value| match v {
-        Value::String(s) => json!(id_of(s)),
-        _ => Value::Null,
-    };
-    let mut obs = Vec::new();
-    for (i, u) in uris.iter().enumerate() {
-        let p = st.get(i).cloned().unwrap_or(Value::Null);
-        let known = !p["analysed"].is_null();
-        let fresh: Option<Vec<Value>> = if known {
-            request(cx, "textDocument/diagnostic", json!({"textDocument": {"uri": u}}), Duration::from_secs(30))
-                .and_then(|r| r.result).and_then(|v| v["items"].as_array().cloned())
-        } else {
-            None
-        };
-        let publ = cx.published.get(u).cloned();
-        let same = match (&publ, &fresh) {
-            (Some((_, p)), Some(f)) => canon(p) == canon(f),
-            _ => false,
-        };
-        obs.push(json!({"open": f(&p["open"]), "analysed": f(&p["analysed"]),
-            "published": publ.as_ref().map(|x| x.1.len()), "fresh": fresh.as_ref().map(|x| x.len()),
-            "same": same, "npub": publ.as_ref().map(|x| x.0).unwrap_or(0)}));
+    // "once the debounce intervals have passed": an observation that does not yet match is re-taken for up to
+    // 15 s (a loaded machine delays the tasks); only a state that stays wrong is reported
+    let t_obs = Instant::now();
+    let mut obs;
+    loop {
+        obs = observe(cx, &uris);
+        if oracle(&obs).is_empty() || t_obs.elapsed() > Duration::from_secs(15) {
+            break;
+        }
+        pump_for(cx, Duration::from_millis(500));
     }
     for u in &uris {
         cx.srv.send_notif("textDocument/didClose", json!({"textDocument": {"uri": u}}));
